@@ -32,10 +32,11 @@ Lemma deploy_loop_ms : forall opi pod n r idxs w k,
     (length failed + length (created_of ms) = length idxs)%nat /\
     (forall p, In p (created_of ms) -> wi_op (fst p) = opi /\ wi_node (fst p) = n /\ snd p = r) /\
     (failed <> [] -> k' = None) /\
+    out w' = rev ms ++ out w /\
     core3 w' w (wls w ++ map (wl_of pod) (created_of ms)) (conts w ++ map cont_of (created_of ms)).
 Proof.
   intros opi pod n r idxs w k Hnd Hf.
-  destruct (deploy_loop_spec opi pod n r idxs w k Hnd Hf) as [w' [k' [failed [ms [H [Hincl [Hsub [Hkn [Hms Hcore]]]]]]]]].
+  destruct (deploy_loop_spec opi pod n r idxs w k Hnd Hf) as [w' [k' [failed [ms [H [Hincl [Hsub [Hkn [Hms [Hout Hcore]]]]]]]]]].
   exists w', k', failed, ms. split; [exact H|].
   assert (Hc : created_of ms = map (fun i => (mkWid opi n i, r)) (succ_of idxs failed)).
   { rewrite Hms. apply created_of_loop. }
@@ -45,6 +46,7 @@ Proof.
   split.
   { intros p Hp. rewrite Hc in Hp. apply in_map_iff in Hp. destruct Hp as [i [<- _]]. simpl. auto. }
   split; [exact Hkn|].
+  split; [exact Hout|].
   rewrite Hc. rewrite !map_map. unfold wl_of, cont_of. cbn [fst snd wi_node]. exact Hcore.
 Qed.
 
@@ -53,14 +55,25 @@ Proof. unfold core3. intros. intuition congruence. Qed.
 Lemma core3_refl : forall w, core3 w w (wls w) (conts w).
 Proof. unfold core3. intuition. Qed.
 
+Lemma repeat_cons_app : forall A (m : A) n (l : list A), repeat m n ++ m :: l = m :: repeat m n ++ l.
+Proof. induction n as [|n IH]; intros l; simpl; [reflexivity|]. rewrite IH. reflexivity. Qed.
+
 Lemma sends_core : forall (l : list nat) m w k,
-  exists w' k', crunk (for_all l (fun _ => send m)) w k = (w', k', tt) /\ core3 w' w (wls w) (conts w).
+  exists w', crunk (for_all l (fun _ => send m)) w k = (w', k, tt) /\ core3 w' w (wls w) (conts w) /\
+             out w' = repeat m (length l) ++ out w.
 Proof.
   induction l as [|x t IH]; intros m w k.
-  - unfold crunk. simpl. do 2 eexists. split; [reflexivity|apply core3_refl].
-  - cbn [for_all]. rewrite crunk_bind. destruct (send_core m w k) as [w1 [k1 [H1 Hc1]]]. rewrite H1.
-    destruct (IH m w1 k1) as [w2 [k2 [H2 Hc2]]]. rewrite H2. do 2 eexists. split; [reflexivity|].
-    eapply core3_trans; eauto.
+  - unfold crunk. simpl. eexists. split; [reflexivity|]. split; [apply core3_refl|reflexivity].
+  - cbn [for_all]. rewrite crunk_bind. destruct (send_core m w k) as [w1 [H1 [Hc1 Ho1]]]. rewrite H1.
+    destruct (IH m w1 k) as [w2 [H2 [Hc2 Ho2]]]. rewrite H2. eexists. split; [reflexivity|].
+    split; [eapply core3_trans; eauto|].
+    rewrite Ho2, Ho1. cbn [length repeat app]. rewrite repeat_cons_app. reflexivity.
+Qed.
+
+Lemma rev_repeat : forall A (m : A) n, rev (repeat m n) = repeat m n.
+Proof.
+  induction n as [|n IH]; simpl; [reflexivity|]. rewrite IH. clear IH.
+  induction n as [|n IH]; simpl; [reflexivity|]. rewrite IH. reflexivity.
 Qed.
 
 (* doGetAndPrepareNode only reads; on an existing node it can only fail by the injected fault *)
@@ -105,20 +118,22 @@ Lemma deploy_on_node_ms : forall opi pod n cnt r w k,
     (length failed + length (created_of ms) = cnt)%nat /\
     node_msgs_ok opi n r ms /\
     (failed <> [] -> k' = None) /\
+    out w' = rev ms ++ out w /\
     core3 w' w (wls w ++ map (wl_of pod) (created_of ms)) (conts w ++ map cont_of (created_of ms)).
 Proof.
   intros opi pod n cnt r w k Hf Hnode. unfold deploy_on_node. rewrite crunk_bind.
   destruct (prep_node_neutral n w k Hnode) as [k1 [e [H1 He]]]. rewrite H1.
   destruct e as [err|].
-  - rewrite crunk_bind. destruct (sends_core (seq_nat 0 cnt) MCreateErr w k1) as [w2 [k2 [H2 Hc2]]]. rewrite H2.
+  - rewrite crunk_bind. destruct (sends_core (seq_nat 0 cnt) MCreateErr w k1) as [w2 [H2 [Hc2 Ho2]]]. rewrite H2.
     unfold crunk. cbn [runk]. do 4 eexists. split; [reflexivity|].
     split; [apply repeat_length|]. split; [rewrite created_of_errs, seq_nat_length; simpl; lia|].
     split; [intros p Hp; rewrite created_of_errs in Hp; destruct Hp|].
-    split; [intros _; rewrite (He ltac:(discriminate)) in H2; apply crunk_none_k in H2; exact H2|].
+    split; [intros _; apply He; discriminate|].
+    split; [rewrite Ho2, seq_nat_length, rev_repeat; reflexivity|].
     rewrite created_of_errs. simpl. rewrite !app_nil_r. exact Hc2.
-  - destruct (deploy_loop_ms opi pod n r (seq_nat 0 cnt) w k1 (seq_nat_nodup cnt 0)) as [w' [k' [failed [ms [H [Hl [Hcount [Hprops [Hkn Hcore]]]]]]]]].
+  - destruct (deploy_loop_ms opi pod n r (seq_nat 0 cnt) w k1 (seq_nat_nodup cnt 0)) as [w' [k' [failed [ms [H [Hl [Hcount [Hprops [Hkn [Hout Hcore]]]]]]]]]].
     { intros i _. apply Hf. left; reflexivity. }
-    rewrite seq_nat_length in *. do 4 eexists. split; [exact H|]. auto.
+    rewrite seq_nat_length in *. do 4 eexists. split; [exact H|]. repeat (split; [assumption|]). assumption.
 Qed.
 
 Lemma find_wl_app_none : forall l l2 id, find (fun y => wid_eqb (w_id y) id) l = None ->
@@ -165,14 +180,15 @@ Lemma deploy_all_ms : forall opi pod r plan w k,
     (forall n cnt, In (n, cnt) plan -> (rb_len rb n + created_on ms n = cnt)%nat) /\
     (forall n, ~ In n (map fst plan) -> rb_len rb n = 0%nat) /\
     (forall g, In g rb -> In (fst g) (map fst plan)) /\
+    out w' = rev ms ++ out w /\
     core3 w' w (wls w ++ map (wl_of pod) (created_of ms)) (conts w ++ map cont_of (created_of ms)).
 Proof.
   intros opi pod r plan. induction plan as [|[n cnt] rest IH]; intros w k Hnd Hf Hnodes.
   - unfold crunk. simpl. do 4 eexists. split; [reflexivity|]. split; [reflexivity|]. split; [congruence|].
-    split; [intros p []|]. split; [intros ? ? []|]. split; [reflexivity|]. split; [intros g []|]. simpl. rewrite !app_nil_r. apply core3_refl.
+    split; [intros p []|]. split; [intros ? ? []|]. split; [reflexivity|]. split; [intros g []|]. split; [reflexivity|]. simpl. rewrite !app_nil_r. apply core3_refl.
   - cbn [map fst] in *. inversion Hnd as [|? ? Hni Hnd']; subst.
     cbn [deploy_all]. rewrite crunk_bind.
-    destruct (deploy_on_node_ms opi pod n cnt r w k) as [w1 [k1 [failed [ms1 [H1 [Hl1 [Hcnt1 [Hok1 [Hk1 Hc1]]]]]]]]].
+    destruct (deploy_on_node_ms opi pod n cnt r w k) as [w1 [k1 [failed [ms1 [H1 [Hl1 [Hcnt1 [Hok1 [Hk1 [Hout1 Hc1]]]]]]]]]].
     { intros n0 i [<-|[]]. apply Hf. left; reflexivity. }
     { apply Hnodes. left; reflexivity. }
     rewrite H1. rewrite crunk_bind.
@@ -190,7 +206,7 @@ Proof.
         assert (Nat.eqb n n' = false) as -> by (apply Nat.eqb_neq; auto). rewrite andb_false_r. reflexivity. }
     assert (Hnodes1 : forall n', In n' (map fst rest) -> find_node w1 n' <> None).
     { intros n' Hn'. unfold find_node. destruct Hc1 as [_ [Hnn _]]. rewrite Hnn. apply Hnodes. right; exact Hn'. }
-    destruct (IH w1 k1 Hnd' Hf1 Hnodes1) as [w2 [k2 [rb [ms2 [H2 [Hl2 [Hk2 [Hok2 [Hcnt2 [Hrb0 [Hrbin Hc2]]]]]]]]]]].
+    destruct (IH w1 k1 Hnd' Hf1 Hnodes1) as [w2 [k2 [rb [ms2 [H2 [Hl2 [Hk2 [Hok2 [Hcnt2 [Hrb0 [Hrbin [Hout2 Hc2]]]]]]]]]]]].
     rewrite H2. unfold crunk. cbn [runk fst snd].
     (* no created instance of the rest is on n, none of ms1 is on a later node *)
     assert (Hon1 : forall n', n' <> n -> created_on ms1 n' = 0%nat).
@@ -230,6 +246,8 @@ Proof.
     split.
     { intros g Hg. destruct failed as [|f0 ft]; [right; apply Hrbin; exact Hg|].
       destruct Hg as [<-|Hg]; [left; reflexivity|right; apply Hrbin; exact Hg]. }
+    split.
+    { rewrite Hout2, Hout1, rev_app_distr, app_assoc. reflexivity. }
     rewrite created_of_app, !map_app, !app_assoc.
     destruct Hc1 as [Hp1 [Hn1 [Hpl1 [Hst1 [Hsc1 [Hw1 Hcc1]]]]]].
     destruct Hc2 as [Hp2 [Hn2 [Hpl2 [Hst2 [Hsc2 [Hw2 Hcc2]]]]]].
